@@ -1,6 +1,7 @@
 from vlib import Check
 
 TRUSTED = [
+    "tie (T), added: the statement lists of the functions this property's model was transcribed from are regenerated from /repo on every run (Gen/Stmts.lean) and pinned against the committed transcription source by the kernel-decided theorem source_as_modelled; the step from statements to model is by reading and is what the differential runs check",
     "Lean 4.33.0 kernel; axioms of every theorem audited",
     "hand-written control-flow model Model/Ctl.lean of the built-in DKG KeyGen (three wait loops woken by OnMsg and the context monitor) and of the orchestrator's result channel; "
     "tied by fault-point enumeration on the real code (harness component faults), not step by step: real time and goroutine scheduling are outside the model",
@@ -14,7 +15,7 @@ ASSUME = [
 
 def main():
     c = Check("C11")
-    c.prove(gen=["blocking"])
+    c.prove(gen=["blocking", "stmts"])
     c.correspond("faults")
     c.correspond("orch")
     return c.finish(
